@@ -184,28 +184,38 @@ def rule_gate(ck):
             sts = [u for _e, u in X.states_at(seen, anode)]
             bad = [u for u in sts if not (u[0] is True or u[1] is True)]
             ck.ob(R, g, cocall, bool(sts) and not bad, "accept_connection is reachable only when no origin was sent or check_origin(origin) returned true")
-            # provenance of the origin value
-            sts = q.stores_to(g.node, arg) if arg else []
-            facts = must_facts(cfg)
-            okp = bool(sts)
-            saw_origin = False
-            for s in sts:
-                v = s.value
-                if _hdr_read(v, "Origin"):
-                    saw_origin = True
-                elif _hdr_read(v, "Sec-Websocket-Origin"):
-                    nodes = [n for n in cfg.stmt_nodes(lambda n: n.ast is s)]
-                    # the legacy header is only used when there is no Origin header
-                    okp = okp and all(any((pol is False and "Origin" in txt and " in " in txt) or (pol is True and txt == "%s is None" % arg and saw_origin) for (txt, pol) in facts[n.id]) for n in nodes)
+            # which value reaches check_origin: decided by abstract interpretation of get() for each header situation
+            from ..x_absint import Evaluator, HeaderMap, Obj, UNK
+
+            situations = [
+                ("Origin present", {"Origin": "http://a.example"}, "http://a.example"),
+                ("Origin present but empty", {"Origin": ""}, ""),
+                ("Origin and legacy header present", {"Origin": "http://a.example", "Sec-Websocket-Origin": "http://b.example"}, "http://a.example"),
+                ("only Sec-Websocket-Origin present", {"Sec-Websocket-Origin": "http://b.example"}, "http://b.example"),
+                ("no origin header", {}, None),
+            ]
+            for label, hdrs, want in situations:
+                d = {"Upgrade": "websocket", "Connection": "Upgrade", "Host": "a.example", "Sec-WebSocket-Version": "13", "Sec-WebSocket-Key": "x"}
+                d.update(hdrs)
+                env = {"self": Obj("self", request=Obj("request", headers=HeaderMap(d))), "args": (), "kwargs": {}}
+                outs = Evaluator(max_paths=400).run(g.node, env)
+                verdicts = set()
+                for o in outs:
+                    names = [e_[0] for e_ in o.state.events]
+                    acc_i = [k for k, nm in enumerate(names) if nm.endswith(".accept_connection")]
+                    if not acc_i:
+                        continue
+                    checks = [e_[1] for e_ in o.state.events[: acc_i[0]] if e_[0] == "self.check_origin"]
+                    if any(a_ and a_[0] is UNK for a_ in checks):
+                        raise AnalysisError("WebSocketHandler.get: the argument of check_origin is not determined for the situation %r" % label)
+                    verdicts.add(tuple(a_[0] if a_ else None for a_ in checks))
+                if not verdicts:
+                    raise AnalysisError("WebSocketHandler.get: accept_connection is not reached in the abstract interpretation (%s)" % label)
+                if want is None:
+                    ok = all(len(v) == 0 or all(x is None for x in v) for v in verdicts)
                 else:
-                    hdrs = {x.value.lower() for x in ast.walk(v) if isinstance(x, ast.Constant) and isinstance(x.value, str)}
-                    if hdrs and not (hdrs & {"origin", "sec-websocket-origin"}):
-                        okp = False  # positively another header / constant
-                    else:
-                        raise AnalysisError("WebSocketHandler.get: where the origin value comes from (%s) is not in a recognised form" % q.unparse(v)[:60])
-            if not sts:
-                raise AnalysisError("WebSocketHandler.get: the argument of check_origin is not a local bound in get()")
-            ck.ob(R, g, cocall, okp and saw_origin, "the value handed to check_origin is the Origin header (Sec-Websocket-Origin only when Origin is absent)", construct="origin provenance: " + q.normalize_construct(cocall, q.local_names(g.node)))
+                    ok = all(len(v) >= 1 and all(x == want for x in v) for v in verdicts)
+                ck.ob(R, g, cocall, ok, "%s: every path that accepts has consulted check_origin with %r first (seen %s)" % (label, want, sorted(map(repr, verdicts))), construct="origin provenance [%s]: %s" % (label, "ok" if ok else sorted(map(repr, verdicts))))
         # --- version / protocol object
         recv = q.dotted(acall.func.value)
         vedges = _edges_where(tests, recv, True) + _edges_where(tests, "%s is None" % recv, False)
@@ -814,6 +824,7 @@ MUTANTS = [
     ("server derives the accept value from the wrong header", _in(P13 + "._challenge_response", replace_expr(lambda n: isinstance(n, ast.Constant) and n.value == "Sec-Websocket-Key", lambda n: ast.Constant(value="Sec-Websocket-Version"))), "C17.accept-value"),
     ("client validates against a fresh key", _in("WebSocketClientConnection.headers_received", replace_expr(lambda n: isinstance(n, ast.Attribute) and n.attr == "key", lambda n: parse_expr("base64.b64encode(os.urandom(16))"))), "C17.accept-value"),
     ("seeded C17-adv2: an Origin without a port inherits the Host header's port", _in("WebSocketHandler.check_origin", lambda root: _origin_port_default(root)), "C17.origin"),
+    ("seeded C17-adv4: `Origin or legacy` - an empty Origin header bypasses the origin check", _in("WebSocketHandler.get", lambda root: _origin_or_legacy(root)), "C17.gate"),
     ("default origin check: suffix match", _in("WebSocketHandler.check_origin", replace_stmt(lambda st: isinstance(st, ast.Return), lambda st: [parse_stmt("return origin.endswith(host)")])), "C17.origin"),
     ("default origin check ignores the port (hostname)", _in("WebSocketHandler.check_origin", replace_expr(lambda n: isinstance(n, ast.Attribute) and n.attr == "netloc", lambda n: ast.Attribute(value=n.value, attr="hostname", ctx=ast.Load()))), "C17.origin"),
     ("default origin check compares with a different header", _in("WebSocketHandler.check_origin", replace_expr(lambda n: isinstance(n, ast.Constant) and n.value == "Host", lambda n: ast.Constant(value="X-Forwarded-Host"))), "C17.origin"),
@@ -848,3 +859,11 @@ def _origin_port_default(root):
     ).body
     root.body = keep + new
     return True
+
+
+def _origin_or_legacy(root):
+    for i, st in enumerate(root.body):
+        if isinstance(st, ast.If) and "'Origin' in" in _src(st.test):
+            root.body[i] = parse_stmt("origin = self.request.headers.get('Origin') or self.request.headers.get('Sec-Websocket-Origin')")
+            return True
+    return False
